@@ -131,7 +131,13 @@ def execute(items, stages, needs, tag, jobs=16, timeout=900, impl_timeout=300):
             if (r.impl.get('frags') or '').startswith('A'):
                 if not proto.same_result('svg:', r.impl.get('svg'), m): r.div.append('S6')
             elif 'S25' not in stages and 'S1' not in stages: r.div.append('S6')
-    return {'impl_cases': len(cases), 'model_cases': len(mcases), 'problems': [str(p)[:300] for p in (problems + mproblems)][:5],
+    # runs with the same input, settings and entry point are executed once: every copy gets the results
+    shared = 0
+    for it in items:
+        for r in it.runs.values():
+            rep = runs[r.key()]
+            if r is not rep: r.impl = rep.impl; r.model = rep.model; r.div = list(rep.div); shared += 1
+    return {'impl_cases': len(cases), 'model_cases': len(mcases), 'shared_runs': shared, 'problems': [str(p)[:300] for p in (problems + mproblems)][:5],
             'crashed': len(crashed), 'unique_runs': len(uniq), 'unique_texts': len(tlist)}
 
 # ------------------------------------------------------------------ shrinking
